@@ -425,6 +425,16 @@ func (g *genCtx) genMacro(r *RNG, depth int) []Macro {
 			return []Macro{{K: "op", Op: "KECCAK256", A: []string{genOff(r), genSize(r)}, Dst: genDst(r)}}
 		}
 	case w < 50:
+		if r.P(1, 6) {
+			// net metering: one slot written two or three times in a row with values from the
+			// small set its committed value is also drawn from (dirty / restored / cleared)
+			s := genSlot(r)
+			var ms []Macro
+			for i := 0; i < 2+r.Intn(2); i++ {
+				ms = append(ms, Macro{K: "op", Op: "SSTORE", A: []string{s, pick(r, []string{"0x0", "0x1", "0x2"})}})
+			}
+			return ms
+		}
 		if r.P(2, 3) {
 			return []Macro{{K: "op", Op: "SSTORE", A: []string{genSlot(r), pick(r, []string{"0x0", "0x1", "0x2", genVal(r)})}}}
 		}
@@ -686,6 +696,12 @@ func genStdScenario(seed uint64, prop string, maxFork string) *Scenario {
 				// often a value the program's SSTOREs also use, so that a slot can be changed and
 				// then set back to its committed value within one transaction (net metering)
 				a.Storage[genSlot(r)] = pick(r, []string{"0x1", "0x2", "0x1", genVal(r)})
+			}
+			if r.Bool() {
+				// every slot the programs use holds a committed non-zero value
+				for k := 0; k < 6; k++ {
+					a.Storage[hxu(uint64(k))] = pick(r, []string{"0x1", "0x2", "0x1", "0x2", genVal(r)})
+				}
 			}
 		}
 		sc.Accounts = append(sc.Accounts, a)
